@@ -64,6 +64,14 @@ def register(w):
         KEEP = [f"legal({A})", f"appended_only(old({Q}), old({ACC}), {Q}, {ACC})", "status_reach(old(self.status), self.status)", f"wf_state({A}, self._history)"]
         c.ens(*KEEP)
         c.may_raise("Exception", ensures=KEEP)
+        # C04/C13: the loop is left only when the microstep bound is hit or no always-transition is nominated any more
+        # (hooks sit on the two statements every iteration executes, so an extra exit shows up as a failing postcondition)
+        c.ghost("limit_hit", BOOL, init="False")
+        c.ghost("none_left", BOOL, init="False")
+        c.after("iterations += 1", "limit_hit = iterations > limit")
+        c.after("selected = self._select_transitions(transient_event)",
+                "none_left = not (len(selected) > 0 and exists[int](lambda i: 0 <= i and i < len(selected) and selected[i].event == ''))")
+        c.ens("final_limit_hit or final_none_left", label="ghost:settles-until-stable-or-the-microstep-bound")
         c.loop(0, inv=[*KEEP, "self._is_processing", "iterations >= 0", "limit == root.max_iterations"],
                decreases="ite(limit - iterations + 1 > 0, limit - iterations + 1, 0)")
 
@@ -252,6 +260,12 @@ def register(w):
         for k_ in KEEP_S:
             c.ens(k_, label=("ghost:queue-append-only" if k_.startswith("appended_only") else None))
         c.may_raise("Exception", ensures=[("ghost:" + k_ if k_.startswith("appended_only") else k_) for k_ in KEEP_S])
+        c.ghost("limit_hit", BOOL, init="False")
+        c.ghost("none_left", BOOL, init="False")
+        c.after("iterations += 1", "limit_hit = iterations > limit")
+        c.after("selected = self._select_transitions(transient_event)",
+                "none_left = not (len(selected) > 0 and exists[int](lambda i: 0 <= i and i < len(selected) and selected[i].event == ''))")
+        c.ens("final_limit_hit or final_none_left", label="ghost:settles-until-stable-or-the-microstep-bound")
         c.loop(0, inv=[*KEEP_S, "self._is_processing", "iterations >= 0", "limit == root.max_iterations"],
                decreases="ite(limit - iterations + 1 > 0, limit - iterations + 1, 0)")
 
